@@ -4,6 +4,7 @@
 mod harness;
 mod obs;
 mod ops;
+mod plain;
 mod scenario;
 
 use ops::*;
@@ -918,6 +919,32 @@ fn main() {
         }
         println!("miri-set: {} histories executed, {} failed", n, bad);
         std::process::exit(if bad == 0 { 0 } else { 1 });
+    }
+    if args.check == "diffmap" || args.check == "mutators" {
+        let t0 = std::time::Instant::now();
+        let maxn = if args.tier == "thorough" { 5 } else { 4 };
+        let (evals, kinds, fails) = if args.check == "diffmap" { plain::check_diffmap(maxn) } else { plain::check_mutators(maxn) };
+        std::panic::set_hook(prev);
+        let mut seen = BTreeSet::new();
+        let mut fv = Vec::new();
+        for f in fails {
+            if seen.insert(f.classification.clone() + &f.what) {
+                fv.push(serde_json::json!({"properties": [f.property], "property": f.property, "classification": f.classification, "what": f.what, "step": 0, "expected": f.expected, "observed": f.observed, "known": known.matches(&f.classification), "input": f.input}));
+            }
+        }
+        let j = serde_json::json!({
+            "check": args.check, "tier": args.tier, "seed": 0,
+            "scope": if args.check == "diffmap" { format!("VectorDiff::apply and ::map: all eleven diff kinds with every index / length from 0 to len+2 (in range and beyond) on every vector of length 0..={}; apply compared with a plain-vector reference incl. 'panics exactly for insert/set/remove beyond the end'; map(+100) commutes with apply; identity map returns an equal diff", maxn) } else { format!("ObservableVector and transaction mutators with every index from 0 to len+2 on vectors of length 0..={} (contents, return value, out-of-range panics change nothing and notify nobody); every per-element decision sequence keep/set/remove/set-then-remove/stop over entries() and for_each(), directly and inside a transaction", maxn) },
+            "evaluations": evals, "distinct_nontrivial": kinds,
+            "rule": "distinct non-trivial cases = distinct (operation, in transaction / panics, empty vector) classes exercised",
+            "exhaustive": true, "samples": [], "failures": fv, "elapsed_s": t0.elapsed().as_secs_f64(),
+        });
+        let text = serde_json::to_string_pretty(&j).unwrap();
+        match &args.out {
+            Some(p) => std::fs::write(p, text).unwrap(),
+            None => println!("{}", text),
+        }
+        return;
     }
     if args.check == "obs-held" {
         let j = run_obs_held(&args.tier, &known);
